@@ -351,12 +351,55 @@ fn open_signatures(id: &str) -> Vec<String> {
     all.iter().filter(|(p, _)| p == id).map(|(_, s)| s.clone()).collect()
 }
 
-/// The signature the engine matches against known_findings.json: the first tag of a tagged violation that is
-/// still open (a case showing two recorded findings is excluded while either is open); a tagged violation
-/// none of whose tags is open keeps its first tag (→ reported); untagged results have no signature.
+#[derive(Clone, Debug, Deserialize)]
+struct Rule {
+    property: String,
+    signature: String,
+    /// every one of these must occur in the violation message
+    #[serde(default)]
+    all: Vec<String>,
+    /// at least one of these must occur (when non-empty)
+    #[serde(default)]
+    any: Vec<String>,
+    /// none of these may occur
+    #[serde(default)]
+    none: Vec<String>,
+}
+
+/// Message-shape rules (`crates/vf-serde/signatures.json`): families of recorded findings that are recognised
+/// by the text of the violation (first matching rule wins). Coarser than the code-level tags — a rule can hide
+/// another defect with the same symptom — so every rule names the construct that must be present in the plan.
+fn rules() -> &'static Vec<Rule> {
+    static RULES: std::sync::OnceLock<Vec<Rule>> = std::sync::OnceLock::new();
+    RULES.get_or_init(|| {
+        let path = vf_kit::engine::verif_root().join("harness/crates/vf-serde/signatures.json");
+        match std::fs::read_to_string(&path) {
+            Ok(t) => match serde_json::from_str::<Vec<Rule>>(&t) {
+                Ok(r) => r,
+                Err(e) => {
+                    eprintln!("warning: {} does not parse: {e}", path.display());
+                    vec![]
+                }
+            },
+            Err(_) => vec![],
+        }
+    })
+}
+
+fn rule_signature(id: &str, msg: &str) -> Option<String> {
+    rules().iter().find(|r| r.property == id && r.all.iter().all(|s| msg.contains(s.as_str())) && (r.any.is_empty() || r.any.iter().any(|s| msg.contains(s.as_str()))) && !r.none.iter().any(|s| msg.contains(s.as_str()))).map(|r| r.signature.clone())
+}
+
+/// The signature the engine matches against known_findings.json. Tagged violations (`[known:a,b]`): the first
+/// tag when every tag is still open (a case showing two recorded findings is excluded while both are open),
+/// otherwise a tag that is no longer open (→ the engine reports the case). Untagged violations: the first
+/// matching message-shape rule. Everything else: none.
 pub fn pick_signature(id: &str, r: &CaseResult) -> Option<String> {
     let tags = known_tags(r);
     if tags.is_empty() {
+        if let vf_kit::engine::Outcome::Violation(m) = &r.outcome {
+            return rule_signature(id, m);
+        }
         return None;
     }
     let open = open_signatures(id);
@@ -401,7 +444,11 @@ pub fn finish<C: Serialize>(sub: &str, case: &C, r: CaseResult) -> CaseResult {
     let Some(dir) = std::env::var_os("VF_SERDE_SURVEY") else { return r };
     let vf_kit::engine::Outcome::Violation(m) = &r.outcome else { return r };
     let first = m.lines().next().unwrap_or("");
-    let key: String = first.chars().filter(|c| !c.is_ascii_digit()).take(110).collect();
+    let id = sub[..3].to_uppercase();
+    let key: String = match rule_signature(&id, m) {
+        Some(sig) if !first.starts_with("[known:") => format!("[rule:{sig}]"),
+        _ => first.chars().filter(|c| !c.is_ascii_digit()).take(110).collect(),
+    };
     let dir = std::path::PathBuf::from(dir);
     let _ = std::fs::create_dir_all(&dir);
     for i in 0..3 {
